@@ -24,7 +24,7 @@ from mc.ref import typing as rt
 PROPERTY = "C14"
 MAXTASKS = 50
 RULE = (
-    "every sequence of <=2 operations (<=3 in thorough) from an alphabet of 57 concrete operations, every "
+    "every sequence of <=2 operations (<=3 in thorough) from an alphabet of 63 concrete operations, every "
     "sequence of 3 (4 in thorough) over a reduced 14-operation alphabet; "
     "operations range over 5 environments (module default, two instances, a subclass with "
     "max_recursion_depth=2, a subclass registering its own function), 8 queries and 4 documents, each "
@@ -54,6 +54,23 @@ def _aliased():
 
 D["alias"] = _aliased
 
+
+def _subclassed(x):
+    """an equal value in which every object / array / string is an instance of a subclass of
+    dict / list / str (what readers with object_pairs_hook, comment-preserving parsers ... return)"""
+    import collections
+    from mc.core.impl import SubList, SubStr
+    if isinstance(x, dict):
+        return collections.OrderedDict((k, _subclassed(v)) for k, v in x.items())
+    if isinstance(x, list):
+        return SubList(_subclassed(v) for v in x)
+    if isinstance(x, str):
+        return SubStr(x)
+    return x
+
+
+D["d1sub"] = lambda: _subclassed(D["d1"]())
+
 Q = {
     "qA": "$.l[?@.a == $.x]",
     "qM": "$.l[?match(@.b, 'a.')]",
@@ -64,6 +81,7 @@ Q = {
     "qR": "$.s[::-1]",
     "qN": "$.l[?@.b == 'ab' || !@.a]",
     # literals that are equal under Python's == and different JSON values
+    "qL": "$.l[?length(@.b) == 2 || length(@) == 1 || count(@.*) == 2]",
     "qT": "$.l[?@.a == true]",
     "qO": "$.l[?@.a == 1]",
     "qOf": "$.l[?@.a == 1.0 || @.a == 0 || @.a == false]",
@@ -87,6 +105,9 @@ def ops_alphabet(tier_small=False):
                     ("E1", "qD", "deep"), ("SF", "qF", "d3"), ("E1", "qR", "d3"), ("E1", "qD", "alias"),
                     ("E2", "qA", "alias")]:
         ops.append(("find", e, q, d))
+    # equal data built from subclasses of dict / list / str
+    ops += [("find", "E1", "qL", "d1"), ("find", "E1", "qL", "d1sub"), ("mfind", "qL", "d1sub"), ("find", "E1", "qA", "d1sub"),
+            ("find", "E1", "qD", "d1sub"), ("find", "E1", "qM", "d1sub")]
     ops += [("find", "E1", "qT", "d1"), ("find", "E1", "qO", "d1"), ("find", "E1", "qOf", "d1"), ("mfind", "qT", "d1"),
             ("mfind", "qO", "d1")]
     ops += [("mfind", "qA", "d1"), ("mfind", "qF", "d1"), ("mfind", "qM", "d1"), ("mfind", "qD", "deep"),
